@@ -161,6 +161,9 @@ class Coop:
         g.enabled = enabled
         g.label = label
         g.pos = (ins or {}).get('pos', '') if isinstance(ins, dict) else ''
+        if self.I.callstack:
+            from .bmc import short_fn
+            g.pos = (g.pos + ' in ' + short_fn(self.I.callstack[-1])).strip()
         E = self._enabled_set()
         if not E:
             raise GoPanic('deadlock', self.describe_stuck(), g.pos)
